@@ -52,6 +52,12 @@ from ..selftest import Mutant  # noqa: E402
 OPS, GMP, REAL, GU = E.OPS, E.GMP, E.REAL, E.GMPUTILS
 
 MUTANTS = [
+    Mutant('zero-times-fraction-loses-its-sign', REAL, "        elif (isinstance(x, Float) and x.is_zero()) or (isinstance(y, Float) and y.is_zero()):\n            # 0 * y = 0; the separate case keeps the sign of a zero operand,\n            # which the rational product below cannot carry\n            s = _signbit(x) != _signbit(y)\n            return Float(s=s, c=0, ctx=REAL)\n", "", 'C02.T2',
+           'finding F52 before its repair: mul(1/3, -0.0) is +0'),
+    Mutant('zero-product-takes-sign-of-x', REAL, "            s = _signbit(x) != _signbit(y)\n            return Float(s=s, c=0, ctx=REAL)\n        else:\n            # both are finite\n            match x, y:\n                case Float(), Float():\n                    r = x.as_real() * y.as_real()",
+           "            s = _signbit(x)\n            return Float(s=s, c=0, ctx=REAL)\n        else:\n            # both are finite\n            match x, y:\n                case Float(), Float():\n                    r = x.as_real() * y.as_real()", 'C02.T2'),
+    Mutant('mod-exact-multiple-is-plus-zero', GMP, "            if r.is_zero():\n                # an exact multiple: like every other result of this\n                # operation, the zero takes the sign of `y`\n                return Float(x=r, s=y.s)\n", "", 'C02.G1',
+           'finding F53 before its repair: mod(4, -2) is +0'),
     Mutant('mod-quotient-at-target-precision', GMP, "            q = math.floor(_mpfr_eval(gmp.div, x, y, n=-1))",
            "            prec, n = ctx.round_params()\n            if prec is None:\n                n = min(n, -1)\n            q = math.floor(_mpfr_eval(gmp.div, x, y, prec=prec, n=n))", 'C02.G1',
            'seeded change C02c: mod(2**60 + 5, 7) under FP64 is 13'),
